@@ -5,7 +5,9 @@ to one table's scan only if every column reference in it was seen, so a variant 
 children must be visited or answered conservatively (`false` = complex, do not push down);
 (b) T8 agreement of every SELECT-side function that turns an evaluated predicate into keep/drop:
 the same per-variant truthiness table (bool / non-zero / false / error).
-Does NOT decide that AND/OR/NOT implement Kleene logic, LIKE/BETWEEN semantics."""
+Does NOT decide that AND/OR/NOT implement Kleene logic, LIKE/BETWEEN semantics.
+The truthiness agreement also covers the inline keep/drop matches of the WHERE pipeline (scan-level filters,
+zero-copy filters, their parallel closures, the post-join filter), discovered from the code."""
 from ..engine.facts import callee_name, callee_path
 from ..engine.tables import enum_switches, switch_arm_regions
 from ..engine.cfg import op_const
